@@ -278,8 +278,8 @@ pub fn run(run: &Run) {
     run.assume("cases whose outcome the rules leave open (all() over an absent-or-empty mapped value) are skipped and counted as excluded");
     let subs = subs();
     run_regressions(run, &subs);
-    let n = run.tier.pick(600_000, 8_000_000);
+    let n = run.tier.pick(600_000, 20_000_000);
     run.random("filters", n, 300, &*find_sub(&subs, "filters").unwrap().f);
-    let n = run.tier.pick(300_000, 4_000_000);
+    let n = run.tier.pick(300_000, 10_000_000);
     run.random("values", n, 120, &*find_sub(&subs, "values").unwrap().f);
 }
